@@ -213,6 +213,7 @@ func runCheck(id, tier, repo string, seed int, writeBaseline bool) int {
 	// translate every function under contract that serves this property
 	var all []*Obligation
 	var funcs []funcReport
+	mismatched := map[string]string{} // function -> translation error
 	var unsupported, notes []string
 	noteSet := map[string]bool{}
 	for _, fn := range w.FuncList {
@@ -226,8 +227,11 @@ func runCheck(id, tier, repo string, seed int, writeBaseline bool) int {
 		}
 		vc, err := w.TranslateFunction(fn, VerifyOpts{SafetyTags: ft})
 		if err != nil {
-			fmt.Fprintln(os.Stderr, "engine error: translate:", err)
-			return 3
+			// the contract no longer fits the function (e.g. an invariant names a variable that is gone): none of the
+			// function's obligations can be generated; if they were in the baseline this is reported as a violation below
+			mismatched[shortFuncName(fn)] = err.Error()
+			fmt.Fprintln(os.Stderr, "contract does not fit the code:", err)
+			continue
 		}
 		n := 0
 		for _, ob := range vc.obs {
@@ -268,7 +272,7 @@ func runCheck(id, tier, repo string, seed int, writeBaseline bool) int {
 		return 3
 	}
 	all = append(all, lemObs...)
-	if len(all) == 0 {
+	if len(all) == 0 && len(mismatched) == 0 {
 		fmt.Fprintf(os.Stderr, "engine error: no obligations generated for %s (vacuous check)\n", id)
 		return 3
 	}
@@ -436,6 +440,28 @@ func runCheck(id, tier, repo string, seed int, writeBaseline bool) int {
 		if _, ok := groups[n]; !ok {
 			lost = append(lost, n)
 		}
+	}
+	// functions whose contract could not be translated: their baseline obligations are not discharged
+	{
+		reported := map[string]bool{}
+		var stillLost []string
+		for _, n := range lost {
+			fn := n
+			if i := strings.Index(fn, "#"); i > 0 {
+				fn = fn[:i]
+			}
+			if msg, bad := mismatched[fn]; bad {
+				if !reported[fn] {
+					reported[fn] = true
+					g := &obGroup{base: fn + "#contract"}
+					rp := writeReplay(id, g, "the contract of "+fn+" does not fit the code any more: "+msg)
+					violations = append(violations, fmt.Sprintf("VIOLATION property=%s replay=%s obligation=%s no-failing-input-found", id, rp, g.base))
+				}
+				continue
+			}
+			stillLost = append(stillLost, n)
+		}
+		lost = stillLost
 	}
 	for _, l := range knownLines {
 		fmt.Println(l)
